@@ -1334,5 +1334,24 @@ def abandoned(p: Path) -> list[list[str]]:
     return [n for n in (handler_names(e) for e in p.events) if n is not None]
 
 
+def split_conditional_callee(paths: list[Path]) -> list[Path]:
+    """`return (A if c else B)(x)` is `return A(x)` where c holds and `return B(x)` where it does not: such an exit becomes two
+    paths with the condition as their last guard (one, when the path has already decided c)."""
+    out = []
+    for p in paths:
+        r = p.exit[1] if p.exit[0] == "return" and len(p.exit) > 1 else None
+        if r is None or r[0] != "call" or r[1][0] != "ifexp":
+            out.append(p)
+            continue
+        c, a, b = r[1][1], r[1][2], r[1][3]
+        known = [v for g, v in p.guards() if g == c]
+        for arm, val in ((a, True), (b, False)):
+            if known and known[-1] is not val:
+                continue
+            q = Path(list(p.events) + ([] if known else [("guard", c, val)]), ("return", ("call", arm, r[2], r[3])), dict(p.env))
+            out.append(q)
+    return split_conditional_callee(out) if any(p.exit[0] == "return" and len(p.exit) > 1 and p.exit[1] is not None and p.exit[1][0] == "call" and p.exit[1][1][0] == "ifexp" for p in out) else out
+
+
 def returns(paths: list[Path]) -> list[tuple[Path, tuple]]:
     return [(p, p.exit[1]) for p in paths if p.exit[0] == "return"]
